@@ -56,6 +56,12 @@ func report(prop, tier string, seed int, results []*harnessResult, loadDur, wall
 		return a
 	}
 	var inconclusive []string
+	for _, f := range sortedKeys(droppedHarnessFiles) {
+		if !droppedServes(f, prop) {
+			continue // no harness of this property was lost
+		}
+		inconclusive = append(inconclusive, "harness file "+filepath.Base(f)+" does not type-check against the current tree: its harnesses were skipped (HARNESS-STALE)")
+	}
 	totalPaths, totalInstrs, totalQueries, totalUnknown := 0, 0, 0, 0
 	totalRetries, totalRetryOK := 0, 0
 	crossQueries := 0
